@@ -75,6 +75,28 @@ CHECKS["C05"] = dict(
          "converted to their payload as the wire would). Programs beyond the size/nesting bound and EPR operations are outside.",
     design="3/C05")
 
+CHECKS["C06"] = dict(
+    engine="symx",
+    technique="SMT (z3 LIA): symbolic execution of compile/instantiate/commit vs flush on the real connection, builder, transpiler and Executor",
+    text="The same host program with Template rotation numerators is run through compile()+Subroutine.instantiate+commit_subroutine and, "
+         "written with the values, through flush(); template values (0..255), array contents and outcomes are symbolic. z3 decides on "
+         "every path equality of the instruction streams sent, controller trace/memory, host values and the connection's bookkeeping "
+         "afterwards, incl. a later flush (re-declaration / erasure of arrays). 7 templated blocks x flush placements x operations "
+         "queued between compile and commit x generic/NV transpiler.",
+    note="Trusted: z3; the direct flush flow is the oracle (its own correctness is C05). PipeConnection/TraceExecutor as in C05.",
+    design="3/C06")
+CHECKS["C14"] = dict(
+    engine="symx",
+    technique="symbolic execution of the real Builder/MemoryManager (z3 decides data-dependent builder branches); inductive-step invariant per operation kind + C05 oracle on nested programs",
+    text="Inductive step: from a builder with k live registers (k in {0,3,11}; thorough 0..12), one completed operation of each of ~190 "
+         "kinds (every DSL construct incl. empty bodies and nesting, every EPR operation kind, generic and NV config) leaves the active "
+         "register set unchanged, writes no live register, and a flush empties the measurement/return pools; so sequences of any length "
+         "compile. Nested programs are additionally decided against direct evaluation (C05 oracle) for all data. Long seeded sequences "
+         "as a cross-check.",
+    note="Mostly shape-driven: the solver decides feasibility of data-dependent builder branches and the nested-program equalities. "
+         "Trusted: z3, RefInterp. Operations outside the listed kinds are outside.",
+    design="3/C14")
+
 NOT_YET = "check not built yet in this revision (work in progress; see DESIGN.md section 3 for the planned solver-based check)"
 NOT_APPLICABLE = {}
 
